@@ -1,2 +1,3 @@
 SPECIFICATION Spec
-INVARIANTS WinnerIsPresent ExplicitFlagWins FileBeatsDefaults EnvNamesDistinct Emit
+CONSTANT SkipUnsetSections = FALSE
+INVARIANTS EveryLevelValidated WinnerIsPresent ExplicitFlagWins FileBeatsDefaults EnvNamesDistinct Emit
